@@ -458,3 +458,44 @@ mod if_std {
 
 #[cfg(feature = "std")]
 pub use self::if_std::*;
+
+#[cfg(all(futures_intrusive_verif, feature = "alloc"))]
+mod verif_hooks {
+    use super::*;
+    use crate::verif::{
+        snap_heap, snap_heap_node, waker_id, NodeSnap, Snapshot,
+    };
+
+    fn describe(entry: &TimerQueueEntry) -> (u8, Option<usize>, u64) {
+        let tag = match entry.state {
+            PollState::Unregistered => 0,
+            PollState::Registered => 1,
+            PollState::Expired => 2,
+        };
+        (tag, waker_id(&entry.task), entry.expiry)
+    }
+
+    impl<MutexType: RawMutex> GenericTimerService<MutexType> {
+        /// Scalars: none, queue: the timer heap in pre-order
+        pub fn verif_snapshot(&self) -> Snapshot {
+            let state = self.inner.lock();
+            let mut snap = Snapshot::default();
+            snap_heap(&state.waiters, &mut snap, &describe);
+            snap
+        }
+    }
+
+    impl<'a> LocalTimerFuture<'a> {
+        /// Describes the wait node of this future
+        pub fn verif_node(&self) -> NodeSnap {
+            snap_heap_node(&self.wait_node, 0, &describe)
+        }
+    }
+
+    impl<'a> TimerFuture<'a> {
+        /// Describes the wait node of this future
+        pub fn verif_node(&self) -> NodeSnap {
+            self.timer_future.verif_node()
+        }
+    }
+}
